@@ -323,6 +323,9 @@ func ifToSwitch(fset *token.FileSet, f *ast.File) int {
 
 // transformOverlay applies the named transform to every non-test .go file of the library packages.
 func transformOverlay(dir, name string) (map[string][]byte, bool) {
+	if name == "extract-guards" {
+		return extractGuardsOverlay(dir)
+	}
 	tr := astTransforms[name]
 	if tr == nil {
 		return nil, false
@@ -360,7 +363,11 @@ func transformOverlay(dir, name string) (map[string][]byte, bool) {
 }
 
 func init() {
+	names := []string{"extract-guards"}
 	for name := range astTransforms {
+		names = append(names, name)
+	}
+	for _, name := range names {
 		for _, pd := range properties {
 			variants = append(variants, Variant{Name: name + "-" + pd.ID, Prop: pd.ID, Rule: "*", Breaking: false, Transform: name,
 				Note: "behaviour-preserving rewrite of every library file: " + name})
